@@ -403,7 +403,7 @@ def run_loop(ctx, r):
 				ctx.count("loop_inputs")
 				ctx.seen(hash(("l", payload)))
 				# wait (wall clock, generous) until the loop has consumed it
-				end = time.time() + 10
+				end = time.time() + 120
 				while th.is_alive() and time.time() < end:
 					if vs.idle.is_set() and not any(s.q for s in (node.trx.ctrl_if.sock, node.trx.data_if.sock)):
 						break
@@ -419,7 +419,7 @@ def run_loop(ctx, r):
 			node.l1_ctrl.take_all()
 			node.l1_ctrl.sendto(b"CMD NOMTXPOWER\0", node.ctrl_port)
 			ok = None
-			end = time.time() + 10
+			end = time.time() + 120
 			while th.is_alive() and time.time() < end:
 				got = node.l1_ctrl.take_all()
 				if got:
@@ -427,7 +427,7 @@ def run_loop(ctx, r):
 					break
 				time.sleep(0.001)
 			if ok is None and th.is_alive():
-				ctx.inconclusive_because("main loop did not answer within 10 s of wall clock (loaded machine?)")
+				ctx.inconclusive_because("main loop did not answer within 120 s of wall clock (loaded machine?)")
 				continue
 			ctx.count("loop_rounds")
 			if not ok:
